@@ -78,7 +78,7 @@ type c18Hello struct {
 
 type c18Conn struct {
 	Addr   string     `json:"addr"`
-	Secret int        `json:"secret"` // 0: none configured, 1: secret A, 2: secret B, 3: the rotating secret (one buffer whose content is overwritten in place)
+	Secret int        `json:"secret"` // 0: none configured, 1: secret A, 2: secret B, 3: the rotating secret (one buffer whose content is overwritten in place), 4: an empty non-nil slice (= none configured)
 	Rotate bool       `json:"rotate"` // before this connection the rotating secret's buffer is overwritten in place with new content
 	Hellos []c18Hello `json:"hellos"`
 }
@@ -138,8 +138,11 @@ func c18Run(c c18Case) (sig, msg string, nontrivial bool) {
 		}
 	}
 	for ci, cn := range c.Conns {
-		secretID := cn.Secret % 4
-		secretBytes := [][]byte{nil, c18Secrets[1], c18Secrets[2], rotating}[secretID]
+		secretID := cn.Secret % 5
+		secretBytes := [][]byte{nil, c18Secrets[1], c18Secrets[2], rotating, {}}[secretID]
+		if secretID == 4 {
+			secretID = 0 // an empty, non-nil secret is "no secret configured": every connection draws its own
+		}
 		if cn.Rotate {
 			generation++
 			for i := range rotating {
@@ -430,6 +433,16 @@ func c18Catalogue(suite uint16) []c18Case {
 	offerOther := est
 	offerOther.Suites = []uint16{0xe0ff}
 	out = append(out, c18Case{Suite: suite, Prime: true, Conns: []c18Conn{{Addr: "203.0.113.7:4444", Secret: 1, Hellos: []c18Hello{offerOther}}}})
+	// an empty but non-nil secret is no secret: per-connection secrets, cookies do not carry over
+	add(c18Conn{Addr: "10.0.0.1:1000", Secret: 4, Hellos: []c18Hello{b, echo}})
+	add(c18Conn{Addr: "10.0.0.1:1000", Secret: 4, Hellos: []c18Hello{b}}, c18Conn{Addr: "10.0.0.1:1000", Secret: 4, Hellos: []c18Hello{prev}})
+	add(c18Conn{Addr: "10.0.0.1:1000", Secret: 4, Hellos: []c18Hello{b}}, c18Conn{Addr: "10.0.0.1:1000", Secret: 0, Hellos: []c18Hello{b}})
+	// long address strings (IPv6 with a zone) that differ only at the end
+	longA, longB := "[fe80::1234:5678:9abc:def0%enp0s31f6.100]:40001", "[fe80::1234:5678:9abc:def0%enp0s31f6.100]:40002"
+	add(c18Conn{Addr: longA, Secret: 1, Hellos: []c18Hello{b, echo}})
+	add(c18Conn{Addr: longA, Secret: 1, Hellos: []c18Hello{b}}, c18Conn{Addr: longB, Secret: 1, Hellos: []c18Hello{prev}})
+	longC, longD := "[2001:db8:1234:5678:9abc:def0:1234:5678%verylongzonename0]:5", "[2001:db8:1234:5678:9abc:def0:1234:5678%verylongzonename1]:5"
+	add(c18Conn{Addr: longC, Secret: 2, Hellos: []c18Hello{b}}, c18Conn{Addr: longD, Secret: 2, Hellos: []c18Hello{prev}})
 	// one cookieless (or wrongly cookied) hello, then silence
 	sil := b
 	sil.Silent = true
@@ -470,7 +483,7 @@ func TestVF_C18(t *testing.T) {
 		c := c18Case{Suite: rapid.SampledFrom([]uint16{ECC_SM4_GCM_SM3, ECDHE_SM4_CBC_SM3}).Draw(t, "suite"), Prime: rapid.IntRange(0, 3).Draw(t, "prime") == 0}
 		nc := rapid.IntRange(1, 3).Draw(t, "nconns")
 		for i := 0; i < nc; i++ {
-			cn := c18Conn{Addr: rapid.SampledFrom([]string{"10.0.0.1:1000", "10.0.0.1:1001", "10.0.0.2:1000", "10.0.0.1:100", "10.0.0.1:10"}).Draw(t, "addr"), Secret: rapid.IntRange(0, 3).Draw(t, "secret"),
+			cn := c18Conn{Addr: rapid.SampledFrom([]string{"10.0.0.1:1000", "10.0.0.1:1001", "10.0.0.2:1000", "10.0.0.1:100", "10.0.0.1:10", "[fe80::1234:5678:9abc:def0%enp0s31f6.100]:40001", "[fe80::1234:5678:9abc:def0%enp0s31f6.100]:40002"}).Draw(t, "addr"), Secret: rapid.IntRange(0, 4).Draw(t, "secret"),
 				Rotate: rapid.IntRange(0, 2).Draw(t, "rotate") == 0}
 			nh := rapid.IntRange(1, 5).Draw(t, "nhellos")
 			for j := 0; j < nh; j++ {
